@@ -6,6 +6,9 @@
  * access outside it is a CBMC bounds failure; the backend stub asserts that the
  * buffer it is handed covers the announced block; the allocator stub keeps a
  * ledger. */
+#ifdef CHUNKED
+#define VP_RX_CHUNKED /* the deframer delivers two chunks instead of single octets */
+#endif
 #include "../regp/regp_common.h"
 
 struct vp_in {
@@ -49,6 +52,9 @@ void harness(void)
     vp_regp_setup(tcp, in.mem16);
     vp_bs = in.bs;
     vp_al.fail_next[0] = in.alloc_fails;
+#ifdef SPLIT
+    in.rx.split = SPLIT; /* enumerated by the driver (constant keeps the sink's state concrete) */
+#endif
     vp_rx = in.rx;
     const unsigned len = in.rx.len;
 
